@@ -1,13 +1,13 @@
 """C20 - code generator naming.  spec/Naming.tla (the naming rule over character sequences,
 model-checked), spec/NamingGen.tla (TLC enumerates identifiers and prints the promised file name
-for every template) -> replay on the current tools/god/util/format + util/stringx sources (and the util/* leaf
-packages they import), copied into a scratch module that carries the path of the real module
+for every template) -> replay on the current tools/god/util/format + util/stringx + config sources (and the
+util/* leaf packages they import), copied into a scratch module that carries the path of the real module
 (github.com/gotid/god/tools/god is a separate module that cannot be built offline)."""
 import glob, json, os, re, shutil, subprocess, time
 from concurrent.futures import ThreadPoolExecutor, as_completed
 from vlib import core
 
-POOL = 3    # TLC runs in parallel (each is start-up dominated) ...
+POOL = 4    # TLC runs in parallel (each is start-up dominated) ...
 W = 2       # ... with this many TLC workers each (4 for the casing family: 2048 templates per state)
 
 RUN = "^TestVerifC20$"
@@ -36,12 +36,29 @@ META = dict(
          "this coverage per case and the run is refused as vacuous without it). The unicode family puts runes whose "
          "Unicode case mapping changes the UTF-8 length or lands on an ASCII letter (U+0131, U+017F, U+0130, U+0250, "
          "U+2C65) before, between and after the two words (rendered verbatim) and inside a would-be word "
-         "(de<U+017F>igner, des<U+0131>gner, DES<U+0130>GNER: not the word, rejected / the later real word counts).",
+         "(de<U+017F>igner, des<U+0131>gner, DES<U+0130>GNER: not the word, rejected / the later real word counts). "
+         "Via the configuration (family cfg, Via = \"config\" in the specification): the templates go the way of the "
+         "generators' --style flag - cfg, err := config.NewConfig(template) on the copied tools/god/config, rejected if "
+         "err != nil, else FileNamingFormat(cfg.NamingFormat, id); the specification says that no template stands for "
+         "the default 'godesigner' and every other template is the template, so white space (space, TAB, LF, U+00A0, "
+         "U+3000) at the beginning of the prefix / the end of the suffix is rendered and a blank template is rejected "
+         "(product of such prefixes x spellings x separators x suffixes, plus blank / empty / invalid templates; the "
+         "run is refused as vacuous without rendered lead/trail/both templates, a rejected blank one and the rendered "
+         "empty one). Conversion families (conv*, no templates): identifiers over letters whose lower-case form has "
+         "another UTF-8 length (U+023A/U+023E -> 3-byte U+2C65/U+2C66, U+2C66 -> 2-byte upper case, U+0130 -> i, "
+         "U+212A -> k, U+00C9) and the bytes 0xFF / 0xC3 that are no UTF-8; ToSnake is compared with the "
+         "specification's conversion (cut before every upper-case letter, lower-case, join with '_') on every string "
+         "without white space, ToCamel on strings whose underscore-separated parts are letters/digits beginning with a "
+         "letter; for inputs that are no UTF-8 modulo 'invalid byte <-> U+FFFD'; everywhere: no panic, a UTF-8 input "
+         "gives a UTF-8 result, and the value is the same in two goroutines and in the later passes. Family bytes: "
+         "FileNamingFormat with invalid bytes in identifier and template (copied, modulo the same replacement).",
     note="Trusted: TLC, the token->rune table of the driver, the copy of the leaf packages into a scratch module named "
-         "github.com/gotid/god/tools/god (util/format, util/stringx and every tools/god/util/* package they import, "
-         "packages of the root module through a replace onto the checked tree; an import of any other tools/god "
-         "package is a harness problem: tools/god/config and the rest of the generator cannot be compiled offline). Identifier alphabet {a,b,A,B,1,_,U+4E2D} (+space for "
-         "camel/snake); characters for which 'title casing of a word' or 'upper-case letter' is not fixed by the "
+         "github.com/gotid/god/tools/god (util/format, util/stringx, config and every tools/god/util/* package they "
+         "import, packages of the root module through a replace onto the checked tree; an import of any other tools/god "
+         "package is a harness problem: the rest of the generator cannot be compiled offline; the call sequence "
+         "NewConfig -> FileNamingFormat(cfg.NamingFormat, name) of the generators is reproduced by the driver). "
+         "Identifier alphabet {a,b,A,B,1,_,U+4E2D} (+space for camel/snake, + the case-length letters and invalid "
+         "bytes in the conversion families); characters for which 'title casing of a word' or 'upper-case letter' is not fixed by the "
          "statement (separators inside words, non-ASCII upper-case letters) and templates that contain 'go'/'designer' "
          "more than once before the designer word are not generated. U+212A (Kelvin sign) is not generated: neither "
          "word has a k.",
@@ -89,13 +106,40 @@ PRODUCT = dict(TplPrefixes=sset(["", "x_"]), GoForms=sset(["go", "GO", "Go", "gO
                DesForms=sset(["designer", "DESIGNER", "Designer", "desiGner"]), TplSuffixes=sset(["", ".x"]))
 
 
-def consts(idchars, maxlen, extra, product=None, emit_from=0):
-    K = dict(IdChars=idchars, MaxLen=maxlen, Templates="TemplateList", Extra=sset(extra), EmitFrom=emit_from)
+def consts(idchars, maxlen, extra, product=None, emit_from=0, via="direct"):
+    K = dict(IdChars=idchars, MaxLen=maxlen, Templates="TemplateList", Extra=sset(extra), EmitFrom=emit_from,
+             Via='"%s"' % via)
     K.update(product or NOPRODUCT)
     return K
 
 
+# via the configuration: white space at the outer ends of the template (sp, tb = TAB, nl = LF, nb = U+00A0,
+# is = U+3000), blank templates, no template at all (= the default), and the ordinary valid / invalid ones
+CFG_PRODUCT = dict(TplPrefixes=sset(["", ["sp"], ["tb", "nb"], ["x", "sp"]]), GoForms=sset(["go", "Go"]),
+                   TplThroughs=sset(["_", ["sp"]]), DesForms=sset(["designer", "DESIGNER"]),
+                   TplSuffixes=sset(["", ["sp"], ["nl", "is"], [".", "x", "tb"]]))
+CFG_EXTRA = VALID8 + INVALID6 + [["sp"], ["sp", "sp"], ["tb"], ["nl"], ["nb"], ["is"], ["sp", "tb", "nl"],
+                                 ["sp"] + G, D + ["sp"], ["tb"] + D + ["_"] + G + ["nl"], ["sp"] + list("gO_designer"),
+                                 ["sp"] + list("godesigner"), list("godesigner") + ["sp"],
+                                 ["tb"] + list("GoDesigner.go") + ["sp"], ["sp"] + list("GO") + ["sp"] + D + ["nl"],
+                                 ["nb"] + list("go_dEsigner") + ["sp"], list("Go") + ["sp"] + list("Designer") + ["is"]]
+# letters whose case mapping has another UTF-8 length and bytes that are no UTF-8, for the conversions
+CONV9Q = '{"a","B","_","1","Ax","tx","xff","Kv","zh"}'
+CONV14 = '{"a","B","_","1","Ax","Tx","ax","tx","xff","xc3","Ee","Kv","Id","zh"}'
+CONV9 = '{"a","B","_","Ax","Tx","tx","xff","xc3","Kv"}'
+BYTES_TPL = ["go_designer", "GoDesigner", "GODESIGNER", "go", ["xff"], ["xff"] + G + ["xff"] + D + ["xff"],
+             ["xc3"] + list("Go_DESIGNER.go"), list("GO") + ["xc3", "xff"] + list("Designer") + ["xc3"],
+             list("go_des") + ["xff"] + list("igner")]
+
 PLANS = {
+    "cfg": consts('{"a","B","_"}', 3, CFG_EXTRA, CFG_PRODUCT, via="config"),
+    "cfgw3": consts('{"a","B","_","1","zh"}', 3, CFG_EXTRA, CFG_PRODUCT, via="config"),
+    "conv4": consts(CONV9Q, 4, []),
+    "conv5": consts(CONV9, 5, []),
+    "convw4": consts(CONV14, 4, []),
+    "convsim": consts(CONV14, 12, [], emit_from=5),
+    "bytes3": consts('{"a","B","_","1","xff"}', 3, BYTES_TPL),
+    "bytes5": consts('{"a","B","_","1","xff","xc3"}', 5, BYTES_TPL),
     "ids4": consts(ID7, 4, VALID8 + INVALID6),
     "ids5": consts(ID7, 5, VALID8 + INVALID6),
     "ids6": consts(ID7, 6, ["Go_designer", "goDESIGNER", "go"]),
@@ -130,7 +174,7 @@ def pairs(ctx, binp, name, maxlen):
     only = os.environ.get("VERIF_PLANS")
     if only and name not in only.split(","):
         return None
-    K = dict(IdChars=PAIR_TAIL, MaxLen=maxlen, Templates="<<>>", Bases=sset(PAIR_BASES))
+    K = dict(IdChars=PAIR_TAIL, MaxLen=maxlen, Templates="<<>>", Bases=sset(PAIR_BASES), Via='"direct"')
     cfg = core.render_cfg(spec="Spec", constants=K, invariants=["Collides", "Emit"])
     r = ctx.tlc("NamingPairGen", cfg, constants=K, name=name, timeout=900, workers=W)
     cases = [p for p in r.printed if p.startswith('{"tail"')]
@@ -145,11 +189,21 @@ def pairs(ctx, binp, name, maxlen):
     return consume
 
 
-def mc(ctx, maxlen):
-    K = dict(IdChars=ID7, MaxLen=maxlen, Templates="<<" + ",".join(seq(t) for t in VALID8 + INVALID6) + ">>")
+def mc(ctx, maxlen, via="direct"):
+    """Model checking of the rule itself.  via="config": the hand-over through the configuration (white-space and
+    blank templates, no template) and the conversions over the case-length letters / invalid bytes."""
+    tpls, idchars, name = VALID8 + INVALID6, ID7, "Naming-mc"
+    if via == "config":
+        tpls = CFG_EXTRA + [["sp"] + GD, GD + ["tb"], ["nb", "x"] + list("Go") + ["sp"] + list("DESIGNER") + ["sp", "nl"]]
+        idchars, name = '{"a","B","_","Ax","tx","xff","Id"}', "Naming-mc-cfg"
+    only = os.environ.get("VERIF_PLANS")
+    if only and "mc" not in only.split(","):
+        return None
+    K = dict(IdChars=idchars, MaxLen=maxlen, Templates="<<" + ",".join(seq(t) for t in tpls) + ">>", Via='"%s"' % via)
     cfg = core.render_cfg(spec="Spec", constants=K,
-                          invariants=["WordsPartition", "RenderShape", "ParseRebuilds", "RoundTripModel", "Deterministic"])
-    ctx.tlc("Naming", cfg, constants=K, name="Naming-mc", workers=W, timeout=900)
+                          invariants=["WordsPartition", "RenderShape", "ParseRebuilds", "RoundTripModel", "Deterministic",
+                                      "ConversionShape", "ConfigPassThrough"])
+    ctx.tlc("Naming", cfg, constants=K, name=name, workers=W, timeout=900)
     return None
 
 
@@ -184,11 +238,12 @@ def requirements(gomod):
 
 
 def copy_sources(mod):
-    """Copy the current non-test sources of tools/god/util/{format,stringx} into the scratch module at the same
+    """Copy the current non-test sources of tools/god/util/{format,stringx} and tools/god/config (the entry point
+    through which every generator hands --style to FileNamingFormat) into the scratch module at the same
     relative path, plus - transitively - every other tools/god/util/<leaf> package they import.  Returns the
     relative package directories and the third-party / root-module import paths met on the way."""
     god = os.path.join(core.REPO, "tools", "god")
-    todo, done, foreign = ["util/format", "util/stringx"], [], set()
+    todo, done, foreign = ["util/format", "util/stringx", "config"], [], set()
     while todo:
         rel = todo.pop(0)
         if rel in done:
@@ -203,9 +258,9 @@ def copy_sources(mod):
             for imp in go_imports(f):
                 if imp == MODPATH or imp.startswith(MODPATH + "/"):
                     dep = imp[len(MODPATH) + 1:]
-                    if not re.fullmatch(r"util/[^/]+", dep):
-                        raise core.Infra("tools/god/%s imports %s: only the leaf packages tools/god/util/* can be copied "
-                                         "into the scratch module (the rest of the generator does not build offline)"
+                    if not re.fullmatch(r"util/[^/]+|config", dep):
+                        raise core.Infra("tools/god/%s imports %s: only tools/god/config and the leaf packages "
+                                         "tools/god/util/* can be copied into the scratch module (the rest of the generator does not build offline)"
                                          % (rel, imp))
                     if dep not in done and dep not in todo:
                         todo.append(dep)
@@ -216,7 +271,7 @@ def copy_sources(mod):
 
 
 def build_driver(ctx):
-    """Copy the current format/stringx sources (non-test files, and the util/* leaf packages they import) + kit +
+    """Copy the current format/stringx/config sources (non-test files, and the util/* leaf packages they import) + kit +
     driver into a scratch module that has the path of the real module, so that imports between the copied
     packages resolve exactly as in tools/god."""
     mod = os.path.join(ctx.build, "mod")
@@ -367,18 +422,29 @@ def one_replay(ctx, binp, name, header, cases):
         rendered_templates=sum(1 for t in tpls if t["valid"]),
         rejected_templates=sum(1 for t in tpls if not t["valid"]),
         rejected_with_named_rune=sum(1 for t in tpls if not t["valid"] and any(len(c) > 1 for c in t["t"])),
-        rendered_with_named_rune=sum(1 for t in tpls if t["valid"] and any(len(c) > 1 for c in t["t"])))
+        rendered_with_named_rune=sum(1 for t in tpls if t["valid"] and any(len(c) > 1 for c in t["t"])),
+        via=json.loads(header)["via"],
+        rendered_outer_space={w: sum(1 for t in tpls if t["valid"] and t["ws"] == w) for w in ("lead", "trail", "both")},
+        rejected_blank=sum(1 for t in tpls if not t["valid"] and t["ws"] == "blank"),
+        rendered_blank=sum(1 for t in tpls if t["valid"] and t["ws"] == "blank"),
+        rendered_empty=sum(1 for t in tpls if t["valid"] and not t["t"]),
+        longer_lower_before_upper=sum(1 for c in cases if '"lg":[true,' in c),
+        invalid_byte_before_upper=sum(1 for c in cases if re.search(r'"lg":\[(true|false),true\]', c)),
+        snake_defined=sum(1 for c in cases if re.search(r'"sn":\{[^{}]*"d":true', c)),
+        camel_defined=sum(1 for c in cases if re.search(r'"cm":\{[^{}]*"d":true', c)))
     ctx.replay(".", {}, RUN, path, label=name, shards=8, binp=binp)
 
 
 STYLES = ["lower", "title", "upper"]
 
 
-def vacuity(ctx, family):
+def vacuity(ctx, family, cfgfam, convfam):
     """Evaluated only when no disagreement was found: the run must have offered what it claims to decide.
     - words that start with a digit and go on with letters (title casing leaves them alone) in first and in later
       position, each with lower / upper / title templates, in the complete enumeration `family`;
-    - templates with case-length-changing runes outside the words (rendered) and inside a would-be word (rejected)."""
+    - templates with case-length-changing runes outside the words (rendered) and inside a would-be word (rejected);
+    - the hand-over through config.NewConfig with white space at the outer ends of the template;
+    - conversions of identifiers whose lower-case form is longer in bytes / that are no UTF-8."""
     cov = ctx.notes.get("covers", {})
     only = os.environ.get("VERIF_PLANS")
     c = cov.get(family)
@@ -395,16 +461,41 @@ def vacuity(ctx, family):
             raise core.Infra("vacuous run: the unicode family lacks rendered/rejected templates with non-ASCII runes: %s" % u)
     elif not only:
         raise core.Infra("vacuous run: the unicode family was not generated")
+    # - via the configuration: templates with white space at the outer ends (rendered), blank ones (rejected), none
+    g = cov.get(cfgfam)
+    if g is not None:
+        if not (g["via"] == "config" and all(g["rendered_outer_space"][w] >= 3 for w in ("lead", "trail", "both"))
+                and g["rejected_blank"] >= 3 and g["rendered_blank"] == 0 and g["rendered_empty"] == 1):
+            raise core.Infra("vacuous run: family %s does not hand white-space / blank / empty templates through the "
+                             "configuration: %s" % (cfgfam, g))
+    elif not only:
+        raise core.Infra("vacuous run: family %s was not generated" % cfgfam)
+    # - conversions: an upper-case letter after a letter whose lower-case form is longer / after an invalid byte, and
+    #   the conversion defined by the specification for most identifiers
+    v = cov.get(convfam)
+    if v is not None:
+        if not (v["longer_lower_before_upper"] >= 10 and v["invalid_byte_before_upper"] >= 10
+                and 2 * v["snake_defined"] >= ctx.notes["pairs"][convfam]["identifiers"] and v["camel_defined"] >= 10):
+            raise core.Infra("vacuous run: family %s lacks case-length letters / invalid bytes before an upper-case "
+                             "letter or compared conversions: %s" % (convfam, v))
+    elif not only:
+        raise core.Infra("vacuous run: family %s was not generated" % convfam)
 
 
 def run(ctx):
     ctx.assumptions += [
-        "the two leaf packages are tested as a copy of the current sources in a scratch module (tools/god cannot be "
-        "built offline); tools/god/config is not exercised",
+        "format, stringx and config are tested as a copy of the current sources in a scratch module (tools/god cannot "
+        "be built offline); the generators' call sequence config.NewConfig(style) -> FileNamingFormat(cfg.NamingFormat, "
+        "name) is reproduced by the driver, the generators themselves are not run",
+        "through the configuration, no template (the empty string) means the default 'godesigner'; every other "
+        "template, white space included, is the template",
         "title casing of a word = first character upper-case, rest lower-case; words never contain separators "
         "(identifier alphabet has none), so strings.Title's notion of word boundaries is not involved",
         "the round trip is promised only for identifiers made of [a-z]+ words joined by single underscores "
-        "(and the empty identifier); elsewhere only 'does not panic' is compared for ToCamel/ToSnake",
+        "(and the empty identifier); besides, 'never fail' is read as: ToSnake gives the conventional conversion (cut "
+        "before every upper-case letter, lower-case, join with '_') on strings without white space, ToCamel on strings "
+        "whose parts are letters/digits beginning with a letter, a UTF-8 input never gives a non-UTF-8 result, an "
+        "invalid byte may be kept or replaced by U+FFFD; elsewhere only 'does not panic, same value every time'",
         "templates in which 'go' or 'designer' occurs more than once before the designer word are not generated",
     ]
     binp, racebin = build_driver(ctx)
@@ -412,17 +503,21 @@ def run(ctx):
     # every job = one TLC run (model checking / case generation) executed in the pool; what it returns is the
     # replay step on the copied sources, run here in the main thread as soon as its cases exist
     if ctx.quick:
-        jobs = [("casing", lambda: one(ctx, binp, "casing", "casing", workers=4)),
+        jobs = [("casing", lambda: one(ctx, binp, "casing", "casing", workers=4)),       # the three longest first
                 ("sim", lambda: one(ctx, binp, "sim", "sim", simulate=200, depth=13)),
-                ("tpl2", lambda: one(ctx, binp, "tpl2", "tpl2")),
-                ("mc", lambda: mc(ctx, 3)),
                 ("ids4", lambda: one(ctx, binp, "ids4", "ids4")),
-                ("unicode", lambda: one(ctx, binp, "unicode", "unicode")),
+                ("cfg", lambda: one(ctx, binp, "cfg", "cfg")),
+                ("conv4", lambda: one(ctx, binp, "conv4", "conv4")),
+                ("tpl2", lambda: one(ctx, binp, "tpl2", "tpl2")),
                 ("bound5", lambda: one(ctx, binp, "bound5", "bound5")),
+                ("mc", lambda: mc(ctx, 3)),
+                ("mccfg", lambda: mc(ctx, 2, via="config")),
+                ("bytes3", lambda: one(ctx, binp, "bytes3", "bytes3")),
+                ("unicode", lambda: one(ctx, binp, "unicode", "unicode")),
                 ("collide", lambda: pairs(ctx, binp, "collide", 3)),
                 ("space4", lambda: one(ctx, binp, "space4", "space4")),
                 ("conc", lambda: concurrent(ctx, racebin, binp, "conc", "conc", simulate=40, depth=16))]
-        family = "ids4"
+        family, cfgfam, convfam = "ids4", "cfg", "conv4"
     else:
         jobs = [("sim", lambda: one(ctx, binp, "sim", "sim", simulate=2500, depth=13)),   # one TLC worker: longest
                 ("ids6", lambda: one(ctx, binp, "ids6", "ids6")),
@@ -432,12 +527,18 @@ def run(ctx):
                 ("bound8c", lambda: one(ctx, binp, "bound8c", "bound8c")),
                 ("casing", lambda: one(ctx, binp, "casing", "casing", workers=4)),
                 ("mc", lambda: mc(ctx, 4)),
+                ("cfgw3", lambda: one(ctx, binp, "cfgw3", "cfgw3")),
+                ("conv5", lambda: one(ctx, binp, "conv5", "conv5")),
+                ("convw4", lambda: one(ctx, binp, "convw4", "convw4")),
+                ("convsim", lambda: one(ctx, binp, "convsim", "convsim", simulate=1500, depth=13)),
+                ("bytes5", lambda: one(ctx, binp, "bytes5", "bytes5")),
+                ("mccfg", lambda: mc(ctx, 3, via="config")),
                 ("space6", lambda: one(ctx, binp, "space6", "space6")),
                 ("collide", lambda: pairs(ctx, binp, "collide", 4)),
                 ("unicode", lambda: one(ctx, binp, "unicode", "unicode")),
                 ("conc", lambda: concurrent(ctx, racebin, binp, "conc", "conc", goroutines=16, iters=10, simulate=150,
                                             depth=16))]
-        family = "ids5"
+        family, cfgfam, convfam = "ids5", "cfgw3", "conv5"
 
     def produce(job):
         try:
@@ -470,7 +571,7 @@ def run(ctx):
             raise first_err
         ctx.notes["harness_problem_besides_disagreement"] = str(first_err)[:600]
     if not ctx.disagreements:
-        vacuity(ctx, family)
+        vacuity(ctx, family, cfgfam, convfam)
 
 
 def replay(ctx, rp):
